@@ -153,6 +153,9 @@ func GenConfig(prop, tier string, seed uint64) Config {
 			c.KF = f
 		}
 	}
+	if prop == "C52" && c.KF != "" && r.Chance(0.4) {
+		c.KF = "head-chunks-gauge-miscounts-mixed-type-ooo-chunks"
+	}
 	if prop == "C02" && c.KF != "" && r.Chance(0.3) {
 		c.KF = "stale-marker-commit-reorder"
 	}
@@ -219,10 +222,11 @@ func profileWeights(prop string, c Config, r *prng.R) weights {
 		w.compact, w.restart, w.compactStale, w.compactSel = 10, 6, 3, 3
 	case "C52":
 		w.compactStale, w.compactSel, w.restart, w.rollback = 3, 3, 4, 4
+		w.setOOO = 0 // the window decides which sample kinds C52 runs may append (see TagGaugeOOOMixed)
 	case "C53", "C23":
 		w.restart = 6
 	}
-	if c.OOOWindow == 0 && prop != "C02" {
+	if c.OOOWindow == 0 && prop != "C02" && prop != "C52" {
 		w.setOOO = 2
 	}
 	// swarm: knock out some op kinds per run
